@@ -170,7 +170,20 @@ class Recon:
         if isinstance(node, ast.Yield):
             return rec(node.value) if node.value else S.C(None)
         if isinstance(node, ast.JoinedStr):
-            return S.unk("fstring")
+            # an f-string of constants is a constant (plain {value} fields only)
+            parts = []
+            for v in node.values:
+                if isinstance(v, ast.Constant):
+                    parts.append(str(v.value))
+                elif isinstance(v, ast.FormattedValue) and v.conversion == -1 and v.format_spec is None:
+                    t = rec(v.value)
+                    if S.is_const(t) and isinstance(t[1], (str, int)) and not isinstance(t[1], bool) and type(t[1]) in (str, int):
+                        parts.append(str(t[1]))
+                    else:
+                        return S.unk("fstring")
+                else:
+                    return S.unk("fstring")
+            return S.C("".join(parts))
         if isinstance(node, (ast.Dict, ast.Set)):
             try:
                 return S.C(self.prog.fold(node, ctx.mi, ctx.ci))
@@ -797,6 +810,10 @@ class Recon:
 
     # -- subscripts -------------------------------------------------------------------
     def subscript(self, base, idx, ctx, depth):
+        if base[0] == "ite" and depth < MAX_DEPTH and idx[0] != "slice" and not any(
+                S.is_const(a) and isinstance(a[1], CType) for a in S.alternatives(base)):
+            # a container chosen by a condition: the element of whichever was chosen
+            return ("ite", base[1], self.subscript(base[2], idx, ctx, depth + 1), self.subscript(base[3], idx, ctx, depth + 1))
         if base[0] in ("tuple", "list") and S.is_const(idx) and isinstance(idx[1], int):
             try:
                 return base[1][idx[1]]
@@ -842,6 +859,25 @@ class Recon:
         return self._call_value(ctx, node, f, args, kws, depth)
 
     def _method_call(self, ctx: FuncCtx, node: ast.Call, recv, name: str, args, kws, depth):
+        if name == "format" and S.is_const(recv) and type(recv[1]) is str and all(S.is_const(a) and type(a[1]) in (str, int) for a in args):
+            # "template".format(constants): a constant (string formatting of literals, nothing of the repository runs)
+            kw = {}
+            okk = True
+            for k_, v_ in kws.items():
+                if k_ == "**":
+                    if S.is_const(v_) and isinstance(v_[1], dict) and all(type(x) in (str, int) for x in v_[1].values()):
+                        kw.update({str(a): b for a, b in v_[1].items()})
+                    else:
+                        okk = False
+                elif S.is_const(v_) and type(v_[1]) in (str, int):
+                    kw[k_] = v_[1]
+                else:
+                    okk = False
+            if okk:
+                try:
+                    return S.C(recv[1].format(*[a[1] for a in args], **kw))
+                except Exception:
+                    pass
         class _Fn:  # the few attributes of the ast.Attribute the code below reads
             attr = name
         fn = _Fn
